@@ -106,7 +106,11 @@ fn tree_k<const K: usize>(sc: &Value, id: usize, out: Out) where AffTree<K>: Dot
     let kind = "tree";
     {
         {
-            let t: AffTree<K> = crate::afftree::build(sc["lhs"].as_array().unwrap());
+            let mut t: AffTree<K> = crate::afftree::build(sc["lhs"].as_array().unwrap());
+            // "elim" scenarios: rendered after an infeasible_elimination (nodes carry cached states; infeasible last children are kept)
+            if sc.get("elim").and_then(|v| v.as_bool()).unwrap_or(false) {
+                if guarded(|| { t.infeasible_elimination(); }).is_err() { return; }
+            }
             let tj = tree_json(&t, 1.0);
             let nodot = t.dot_str().is_none();
             let dot = guarded(|| t.dot_str().unwrap_or_default());
